@@ -1,3 +1,5 @@
+from fractions import Fraction
+
 from rtamt.syntax.ast.visitor.stl.ast_visitor import StlAstVisitor
 from rtamt.semantics.interval.interval import Interval
 from rtamt.pastifier.ltl.pastifier import LtlPastifier
@@ -44,8 +46,24 @@ class StlPastifier(LtlPastifier, StlAstVisitor):
         LtlPastifier.__init__(self)
         self.node_horizons = dict()
 
+    def normalize_units(self, node):
+        # Horizons add up bounds of different operators and the rewritten
+        # intervals are built from them: express every bound in the default unit.
+        for child in node.children:
+            self.normalize_units(child)
+        if isinstance(node, Interval):
+            b_unit = node.begin_unit or node.end_unit or self.ast.unit
+            e_unit = node.end_unit or node.begin_unit or self.ast.unit
+            unit = self.ast.U[self.ast.unit]
+            node.begin = Fraction(node.begin) * self.ast.U[b_unit] / unit
+            node.end = Fraction(node.end) * self.ast.U[e_unit] / unit
+            node.begin_unit = ''
+            node.end_unit = ''
+
     def pastify(self, ast):
         self.ast = ast
+        for spec in ast.specs:
+            self.normalize_units(spec)
         h = StlHorizon()
         horizons = dict()
         for spec in ast.specs:
